@@ -24,6 +24,12 @@ def run(ctx):
     ctx.model_check(_world.MC, "World_C13.cfg")
     ctx.negative_control(_world.MC, "World_C13_neg_truthy.cfg", "C13_AlgIsFilter")
     _world.spec_to_code(ctx, "World_MBT_c03.cfg", sample=2000 if q else None, probe=probe)
+    # agents that receive components AFTER joining (with or without the register call): the filters look at the agents, not at
+    # the component listings; what that does to the listings is C03's business (findings F1 F2 F3 F6 are tolerated here)
+    ctx.tolerated = {"F1", "F2", "F3", "F6"}
+    runs = _world.random_runs(ctx, 150 if q else 1500, kinds=("plain", "grid"), mods="any", length=60, weights=W, nseeds=200, n_ids=4,
+                              tags=(None, 0, 1, 7))
+    _world.validate_runs(ctx, runs, "populations whose resident agents gain and lose components", expect_clean=False)
     n = 300 if q else 3000
     for kinds, label in ((("plain",), "plain environment"), (("space", "grid"), "spatial worlds")):
         runs = _world.random_runs(ctx, n, kinds=kinds, mods="clean", length=60, weights=W, nseeds=200, n_ids=4,
